@@ -59,7 +59,7 @@ Proof.
 Qed.
 
 Lemma data_step_deq c ls1 ls2 o x y :
-  (forall t, query ls1 t = query ls2 t) -> deq x y ->
+  (forall t, query c ls1 t = query c ls2 t) -> deq x y ->
   deq (data_step c ls1 o x) (data_step c ls2 o y).
 Proof.
   intros Q H. pose proof H as [A B].
@@ -419,20 +419,50 @@ Proof.
 Qed.
 
 (* the query step: everything a reachable nsqlookupd knows, minus #ephemeral *)
-Lemma query_covers ls t k ch :
+(* with the partial-result rule, a failing nsqlookupd takes nothing away from what the
+   answering ones know — for every subset of failing lookupds *)
+Lemma query_covers c ls t k ch :
+  g_partial_query c = true ->
   In k ls -> k_conf k = true -> k_info k = true -> l_up k = true -> l_http k = true ->
-  In (t, ch) (l_known k) -> In ch (query ls t).
+  In (t, ch) (l_known k) -> In ch (query c ls t).
 Proof.
-  intros Hk C I U Ht Kn. unfold query. apply in_flat_map. exists k. split; auto.
-  rewrite C, I, U, Ht. cbn. apply in_map_iff. exists (t, ch). split; auto.
+  intros G Hk C I U Ht Kn. unfold query. rewrite G. cbn [orb]. unfold query_union. apply in_flat_map. exists k. split; auto.
+  unfold asked, answers. rewrite C, I, U, Ht. cbn. apply in_map_iff. exists (t, ch). split; auto.
   apply filter_In. split; auto. cbn. apply N.eqb_refl.
+Qed.
+
+(* nothing is invented: a pre-created channel is known to some asked, answering nsqlookupd *)
+Lemma query_sound c ls t ch :
+  In ch (query c ls t) ->
+  exists k, In k ls /\ k_conf k = true /\ k_info k = true /\ l_up k = true /\ l_http k = true /\ In (t, ch) (l_known k).
+Proof.
+  unfold query. intros H.
+  assert (U : In ch (query_union ls t)). { destruct (g_partial_query c || negb (query_fails ls)); auto. destruct H. }
+  unfold query_union in U. apply in_flat_map in U. destruct U as (k & Hk & Hc).
+  unfold asked, answers in Hc.
+  destruct (k_conf k) eqn:C, (k_info k) eqn:I, (l_up k) eqn:Up, (l_http k) eqn:Ht; cbn in Hc; try (destruct Hc; fail).
+  apply in_map_iff in Hc. destruct Hc as ((t', c') & E & F). cbn in E. subst c'.
+  apply filter_In in F. destruct F as [F1 F2]. cbn in F2. apply N.eqb_eq in F2. subst t'.
+  exists k. auto 10.
+Qed.
+
+(* all asked lookupds fail: nothing is pre-created (GetTopic logs a warning and starts the topic) *)
+Lemma query_all_fail c ls t :
+  (forall k, In k ls -> asked k = true -> answers k = false) -> query c ls t = [].
+Proof.
+  intros H. unfold query.
+  assert (U : query_union ls t = []).
+  { unfold query_union. induction ls as [|k r IH]; cbn; auto.
+    rewrite IH by (intros; apply H; auto; right; auto).
+    destruct (asked k) eqn:A; cbn; auto. rewrite (H k (or_introl eq_refl) A). reflexivity. }
+  rewrite U. destruct (_ || _); reflexivity.
 Qed.
 
 Lemma advance_query c ls t x i :
   QX x -> find_topic (x_objs x) t = Some i -> d_pc (getD (x_dats x) i) = 0 ->
   let x' := data_step c ls (TopicAdvance t) x in
   x_objs x' = x_objs x /\
-  d_want (getD (x_dats x') i) = filter (fun ch => negb (g_skip_eph c && eph ch)) (query ls t) /\
+  d_want (getD (x_dats x') i) = filter (fun ch => negb (g_skip_eph c && eph ch)) (query c ls t) /\
   d_todo (getD (x_dats x') i) = d_want (getD (x_dats x') i) /\
   d_pc (getD (x_dats x') i) = 1.
 Proof.
